@@ -10,6 +10,7 @@
 // sample mean within 8 sigma/sqrt(n); chi-square goodness of fit at 1e-9 (upper tail from Boost gamma_q; cells with
 // expectation < 25 pooled; cells of probability 0 must be empty, exactly).  Budget: <= 2000 tests per run; the quick tier
 // runs about 360 (see the per-law counts), the thorough tier 5x that.
+#include <boost/math/special_functions/beta.hpp>
 #include <boost/math/special_functions/gamma.hpp>
 
 #include "common/pbt.hpp"
@@ -247,6 +248,7 @@ vector<vector<double>> genStoch(vf::Ctx& c, size_t K) {
 struct Dist {
   unique_ptr<DiscreteDistributionInterface> d; string text; const char* knownC = nullptr;  // finding hit by randC() for these parameters
   bool hasC = true; bool nontrivial = false; bool constant = false;
+  bool representable = true;  // false: more than 1e-4 of the law's mass lies between the last double of the (open) domain and its bound
 };
 Dist genDist(vf::Ctx& c) {
   Dist r; ostringstream o; size_t K = static_cast<size_t>(c.irange(2, 10));
@@ -257,7 +259,10 @@ Dist genDist(vf::Ctx& c) {
       r.d.reset(new GammaDiscreteDistribution(K, a, b, 0.05, 0.05, true, off)); r.nontrivial = true;
       if (b != 1) r.knownC = K_GAMMA; else if (off > 0) r.knownC = K_GAMOFF;
       break; }
-    case 2: { double a = gridv(c), b = gridv(c); o << "Beta(" << K << ",alpha=" << a << ",beta=" << b << ")"; r.d.reset(new BetaDiscreteDistribution(K, a, b)); r.nontrivial = (a != 1 || b != 1); break; }
+    case 2: { double a = gridv(c), b = gridv(c); o << "Beta(" << K << ",alpha=" << a << ",beta=" << b << ")"; r.d.reset(new BetaDiscreteDistribution(K, a, b)); r.nontrivial = (a != 1 || b != 1);
+      // the domain is ]0,1[: reals that round to 1.0 cannot be returned (Beta(20,0.1): 3.4% of the mass, Boost reference)
+      r.representable = static_cast<double>(boost::math::ibetac(static_cast<LD>(a), static_cast<LD>(b), static_cast<LD>(nextafter(1.0, 0.0)))) <= 1e-4;
+      break; }
     case 3: { double mu = static_cast<double>(c.zig(5)), s = gridv(c); o << "Gaussian(" << K << ",mu=" << mu << ",sigma=" << s << ")"; r.d.reset(new GaussianDiscreteDistribution(K, mu, s)); if (s != 1) { r.knownC = K_GAUSSC; r.nontrivial = true; } break; }
     case 4: { double l = gridv(c); o << "Exponential(" << K << ",lambda=" << l << ")"; r.d.reset(new ExponentialDiscreteDistribution(K, l)); if (l != 1) { r.knownC = K_EXP; r.nontrivial = true; } break; }
     case 5: { double l = gridv(c), tp = c.pick({2.0, 0.5, 10.0}); o << "TruncExponential(" << K << ",lambda=" << l << ",tp=" << tp << ")"; r.d.reset(new TruncatedExponentialDiscreteDistribution(K, l, tp)); if (l != 1) { r.knownC = K_EXP; } r.nontrivial = true; break; }
@@ -434,6 +439,7 @@ LAW(D_randC, RC, 48, 240, 24, "convention-sensitive parameter != 1, an offset, o
   vector<double> xs(NDRAW);
   for (auto& x : xs) { x = D.d->randC(); CHECK(x >= lo && x <= hi, D.text << ".randC() = " << vf::dec(x) << " outside the domain [" << lo << "," << hi << "]"); }
   if (D.constant) { for (double x : xs) CHECK(x == lo, "constant distribution drew " << x); return; }
+  if (!D.representable) { c.label("law_not_representable_in_double_no_KS"); return; }
   double Flo = D.d->pProb(lo), Fhi = D.d->pProb(hi);
   CHECK(Fhi > Flo, "internal: domain without mass");
   CHECK_KS(c, xs, [&](double x) { return x <= lo ? 0. : x >= hi ? 1. : (D.d->pProb(x) - Flo) / (Fhi - Flo); }, D.text << ".randC() vs its own pProb renormalised to the domain [" << lo << "," << hi << "]");
